@@ -29,6 +29,7 @@
 #include <map>
 #include <sstream>
 #include <streambuf>
+#include <typeinfo>
 #include <string>
 #include <vector>
 
@@ -840,6 +841,152 @@ void wide_utf8_files(std::uint64_t total)
   std::remove(path.c_str());
 }
 
+// ---- the locale of the caller's stream.  Line = 1 + number of NEWLINE CHARACTERS before the offset: the text decides,
+// not what the imbued locale's ctype facet widens '\n' to.  (a) char / wchar_t streams imbued with a ctype facet that
+// widens '\n' to another character which also occurs in the text; (b) char16_t / char32_t streams, for which no ctype
+// facet exists at all (widen throws bad_cast) - reading, positions and rewinds do not need one.
+template <class Ch>
+struct odd_ctype : std::ctype<Ch>
+{
+  Ch target;
+  explicit odd_ctype(Ch t) : std::ctype<Ch>(), target(t) {}
+  using base = std::ctype<Ch>;
+  Ch do_widen(char c) const override { return c == '\n' ? target : base::do_widen(c); }
+  char const *do_widen(char const *lo, char const *hi, Ch *to) const override
+  {
+    for (; lo != hi; ++lo, ++to)
+      *to = do_widen(*lo);
+    return hi;
+  }
+};
+template <class Ch>
+void odd_locale_streams(std::uint64_t total)
+{
+  using Str = std::basic_string<Ch>;
+  std::string e = std::string("stream<") + cn<Ch>() + ">/ctype-facet-widens-newline-differently";
+  if (!vf::entry_enabled(e))
+    return;
+  vf::set_entry(e);
+  std::uint64_t per = total / vf::opts().nparts + 1;
+  Ch const other = static_cast<Ch>(sizeof(Ch) == 1 ? 0x1E : 0x85);
+  Ch const alpha[6] = {Ch('a'), Ch('\n'), other, Ch(' '), Ch('\n'), Ch('b')};
+  for (std::uint64_t h = 0; h < per; ++h)
+  {
+    vf::rng g(vf::seed_for(e, h));
+    std::size_t len = g.below(24) + 1;
+    Str t;
+    for (std::size_t k = 0; k < len; ++k)
+      t += alpha[g.below(6)];
+    if (!vf::begin_case("seed=%" PRIu64 " part=%u h=%" PRIu64 " text=\"%s\"", vf::opts().seed, vf::opts().part, h, narrow_show(t).c_str()))
+      continue;
+    vf::sample_case(1);
+    vf::note_distinct(vf::hash_mix(vf::hash_str(e), vf::hash_bytes(t.data(), t.size() * sizeof(Ch))));
+    std::basic_istringstream<Ch> is(t);
+    is.imbue(std::locale(std::locale::classic(), new odd_ctype<Ch>(other)));
+    fcppt::parse::detail::stream<Ch> st{fcppt::reference_to_base<std::basic_istream<Ch>>(fcppt::make_ref(is))};
+    checker<Ch> c(t, st, e);
+    interleave<Ch>(c, st, g, static_cast<unsigned>(3 * len + 10));
+    VF_COUNT("stream/odd-ctype-interleavings");
+  }
+}
+template <class Ch>
+void facetless_character_types(char const *name, std::uint64_t total)
+{
+  using Str = std::basic_string<Ch>;
+  std::string e = std::string("stream<") + name + ">";
+  if (!vf::entry_enabled(e))
+    return;
+  vf::set_entry(e);
+  std::uint64_t per = total / vf::opts().nparts + 1;
+  Ch const alpha[6] = {Ch('a'), Ch('\n'), Ch(' '), static_cast<Ch>(0x20AC), Ch('\n'), static_cast<Ch>(0x010A)};
+  for (std::uint64_t h = 0; h < per; ++h)
+  {
+    vf::rng g(vf::seed_for(e, h));
+    std::size_t len = g.below(24) + 1;
+    Str t;
+    std::string shown;
+    for (std::size_t k = 0; k < len; ++k)
+    {
+      t += alpha[g.below(6)];
+      shown += t.back() == Ch('\n') ? "\\n" : t.back() < Ch(0x7f) ? std::string(1, static_cast<char>(t.back())) : "?";
+    }
+    if (!vf::begin_case("seed=%" PRIu64 " part=%u h=%" PRIu64 " text=\"%s\"", vf::opts().seed, vf::opts().part, h, shown.c_str()))
+      continue;
+    vf::sample_case(1);
+    vf::note_distinct(vf::hash_mix(vf::hash_str(e), vf::hash_bytes(t.data(), t.size() * sizeof(Ch))));
+    std::basic_istringstream<Ch> is(t);
+    fcppt::parse::detail::stream<Ch> st{fcppt::reference_to_base<std::basic_istream<Ch>>(fcppt::make_ref(is))};
+    // the same definition-based oracle, spelled out here (checker<> formats its messages through wide literals)
+    auto const line_of = [&t](std::size_t i) {
+      unsigned l = 1;
+      for (std::size_t k = 0; k < i; ++k)
+        l += t[k] == Ch('\n') ? 1U : 0U;
+      return l;
+    };
+    auto const col_of = [&t](std::size_t i) {
+      long last = -1;
+      for (std::size_t k = 0; k < i; ++k)
+        if (t[k] == Ch('\n'))
+          last = static_cast<long>(k);
+      return static_cast<unsigned>(static_cast<long>(i) - last);
+    };
+    bool ok = true;
+    auto const fail = [&](char const *cls, std::string const &d) {
+      vf::violation(e + "/" + cls, "mismatch", d + " text=\"" + shown + "\"");
+      ok = false;
+    };
+    std::vector<std::pair<std::size_t, fcppt::parse::position<Ch>>> saved;
+    std::size_t k = 0;
+    try
+    {
+      for (unsigned q = 0; q < 3 * len + 10 && ok; ++q)
+        switch (g.below(4))
+        {
+        case 0:
+        case 1:
+        {
+          auto const ch = st.get_char();
+          VF_COUNT("stream/reads");
+          if (k < t.size())
+          {
+            if (!ch.has_value() || ch.get_unsafe() != t[k])
+              fail("interleaved/char", "at offset " + std::to_string(k));
+            ++k;
+          }
+          else if (ch.has_value())
+            fail("interleaved/char-at-end-of-input", "a character was produced at end of input");
+          break;
+        }
+        case 2:
+        {
+          auto const p = st.get_position();
+          VF_COUNT("stream/positions-checked");
+          if (static_cast<std::size_t>(std::streamoff(p.pos())) != k)
+            fail("interleaved/offset", "offset got=" + std::to_string(std::streamoff(p.pos())) + " want=" + std::to_string(k));
+          else if (!p.location().has_value() || p.location().get_unsafe().line().get() != line_of(k) || p.location().get_unsafe().column().get() != col_of(k))
+            fail("interleaved/location", "at offset " + std::to_string(k));
+          saved.emplace_back(k, p);
+          break;
+        }
+        default:
+          if (!saved.empty())
+          {
+            auto const &m = saved[g.below(saved.size())];
+            st.set_position(m.second);
+            k = m.first;
+            VF_COUNT("stream/restores");
+          }
+          break;
+        }
+    }
+    catch (std::bad_cast const &)
+    {
+      fail("needs-a-ctype-facet", "reading / positioning a stream of this character type asked the locale for a facet that does not exist (std::bad_cast)");
+    }
+    VF_COUNT("stream/facetless-character-type-interleavings");
+  }
+}
+
 void body()
 {
   for (char const *b : {"stream/positions-checked", "stream/reads", "stream/reads-at-eof", "stream/restores",
@@ -847,7 +994,8 @@ void body()
                         "stream/interleavings", "stream/messages-checked", "stream/messages-at-eof",
                         "stream/file-interleavings", "stream/failing/bad-stream-reported", "stream/failing/plain-eof",
                         "stream/failing/entry-point-runs", "stream/failing/rewind-after-bad", "stream/failing/unseekable-rewind", "stream/external/eofbit-only", "stream/external/failbit-only",
-                        "stream/seekpos-only-interleavings", "stream/utf8-file-interleavings", "stream/utf8-file-with-multibyte-characters"})
+                        "stream/seekpos-only-interleavings", "stream/utf8-file-interleavings", "stream/utf8-file-with-multibyte-characters",
+                        "stream/odd-ctype-interleavings", "stream/facetless-character-type-interleavings"})
     vf::require_bucket(b);
   exhaustive<char>(vf::tier<unsigned>(7, 12));
   exhaustive<wchar_t>(vf::tier<unsigned>(6, 10));
@@ -861,6 +1009,10 @@ void body()
   absolute_only_devices<char>(vf::tier<std::uint64_t>(800, 40000));
   absolute_only_devices<wchar_t>(vf::tier<std::uint64_t>(800, 40000));
   wide_utf8_files(vf::tier<std::uint64_t>(800, 40000));
+  odd_locale_streams<char>(vf::tier<std::uint64_t>(600, 30000));
+  odd_locale_streams<wchar_t>(vf::tier<std::uint64_t>(600, 30000));
+  facetless_character_types<char32_t>("char32_t", vf::tier<std::uint64_t>(600, 30000));
+  facetless_character_types<char16_t>("char16_t", vf::tier<std::uint64_t>(600, 30000));
 }
 }
 
